@@ -165,6 +165,61 @@ def _point_tuples(fn, pts_name, pm):
     return out
 
 
+def list_elements(fn, e, use, pm, depth=0):
+    """(element nodes, complete) of the list denoted by expression e at `use`: elements of list displays, of comprehensions, of
+    concatenations, and -- for a local name -- of all its definitions plus what is appended / added to it.  The nodes are nodes of
+    fn's tree, so their binders and path conditions can be asked for; complete is False when some contribution is not understood."""
+    out, complete = [], True
+    if depth > 4:
+        return out, False
+    if isinstance(e, (ast.List, ast.Tuple)):
+        for x in e.elts:
+            if isinstance(x, ast.Starred):
+                o, c = list_elements(fn, x.value, use, pm, depth + 1)
+                out += o
+                complete &= c
+            else:
+                out.append(x)
+    elif isinstance(e, (ast.ListComp, ast.GeneratorExp)):
+        out.append(e.elt)
+    elif isinstance(e, ast.BinOp) and isinstance(e.op, ast.Add):
+        for side in (e.left, e.right):
+            o, c = list_elements(fn, side, use, pm, depth + 1)
+            out += o
+            complete &= c
+    elif isinstance(e, ast.Call) and isinstance(e.func, ast.Name) and e.func.id in ('list', 'tuple') and len(e.args) == 1:
+        return list_elements(fn, e.args[0], use, pm, depth + 1)
+    elif isinstance(e, ast.Name):
+        nm = e.id
+        ds = definitions(fn.node, nm)
+        if not ds:
+            return out, False
+        for st, v, how in ds:
+            if how == 'assign' and v is not None:
+                o, c = list_elements(fn, v, st, pm, depth + 1)
+                out += o
+                complete &= c
+            elif how == 'aug' and isinstance(st.op, ast.Add):
+                o, c = list_elements(fn, st.value, st, pm, depth + 1)
+                out += o
+                complete &= c
+            else:
+                complete = False
+        for c_ in iter_nodes(fn.node):
+            if isinstance(c_, ast.Call) and isinstance(c_.func, ast.Attribute) and isinstance(c_.func.value, ast.Name) and c_.func.value.id == nm:
+                if c_.func.attr == 'append' and len(c_.args) == 1:
+                    out.append(c_.args[0])
+                elif c_.func.attr == 'extend' and len(c_.args) == 1:
+                    o, c = list_elements(fn, c_.args[0], c_, pm, depth + 1)
+                    out += o
+                    complete &= c
+                elif c_.func.attr in ('insert', 'pop', 'remove', 'clear', 'sort', 'reverse'):
+                    complete = False
+    else:
+        complete = False
+    return out, complete
+
+
 def _plus_one(e):
     if isinstance(e, ast.BinOp) and isinstance(e.op, ast.Add):
         if const_int(e.right) == 1:
